@@ -250,6 +250,9 @@ def x_angles_to_x(fn):
                 raise U('angles_to_x: latitude branch')
             out['theta_lat'] = rexpr(st.body[0].value, env0)
             out['theta_colat'] = rexpr(st.orelse[0].value, env0)
+        elif isinstance(st, ast.If) and all(isinstance(q, ast.Assign) and un(q.targets[0]) == 'x' and isinstance(q.value, ast.Call)
+                                            and is_np(q.value.func, 'zeros') for q in st.body + st.orelse):
+            continue     # choice of the output dtype (x = np.zeros(..., dtype=...) in both branches)
         elif isinstance(st, ast.Return):
             if un(st.value) != 'x':
                 raise U('angles_to_x: return')
